@@ -5,6 +5,7 @@ import GqlVerif.Driver.Decode
 import GqlVerif.Driver.Render
 import GqlVerif.Driver.ExtOps
 import GqlVerif.Driver.Messages
+import GqlVerif.Spec.TypeSystem
 open Lean Gql Gql.Driver
 
 structure DState where
@@ -39,20 +40,24 @@ def handle (st : DState) (j : Json) : D (DState × Json) := do
     pure (st, Json.mkObj [("r", r)])
   | "validate" =>
     let d ← document (← field j "doc")
+    let only : Option (List String) := match j.getObjVal? "rules" with
+      | .ok r => (match listOf str r with | .ok l => some l | .error _ => none)
+      | .error _ => none
     match visitDocument st.schema d with
-    | none => pure (st, Json.mkObj [("outcome", "panic")])
+    | none => pure (st, Json.mkObj [("outcome", "panic"), ("wf", st.schema.WF)])
     | some v =>
       let tr := (v Stacks.empty).2
+      let rules := RuleId.all.filter fun r => match only with | some l => l.contains (ruleName r) | none => true
       -- each rule alone
-      let single := RuleId.all.map fun r =>
+      let single := rules.map fun r =>
         (ruleName r, Json.arr ((sortStrings (((ruleOf r).runOn st.schema d tr).map (renderErr st.strings))).map Json.str).toArray)
-      -- merge rule / cycle rule diagnostics
-      let mst := (tr.foldl (overlappingFieldsCanBeMerged.step st.schema d) (overlappingFieldsCanBeMerged.init, [])).1
+      let wantMerge := rules.contains .overlappingFieldsCanBeMerged
+      let mst := if wantMerge then (tr.foldl (overlappingFieldsCanBeMerged.step st.schema d) (overlappingFieldsCanBeMerged.init, [])).1 else {}
       let cst := (tr.foldl (noFragmentsCycle.step st.schema d) (noFragmentsCycle.init, [])).1
       -- the default plan through the shared context
-      let dflt := (runPlan st.schema d v RuleId.all Stacks.empty).map fun g =>
+      let dflt := if only.isSome then [] else (runPlan st.schema d v RuleId.all Stacks.empty).map fun g =>
         Json.arr ((sortStrings (g.map (renderErr st.strings))).map Json.str).toArray
-      pure (st, Json.mkObj [("outcome", "ok"), ("single", Json.mkObj single),
+      pure (st, Json.mkObj [("outcome", "ok"), ("wf", st.schema.WF), ("single", Json.mkObj single),
         ("mergeStuck", mst.stuck), ("guardHit", mst.guardHit), ("cycleStuck", cst.stuck),
         ("planGroups", Json.arr dflt.toArray)])
   | "svisit" =>
